@@ -133,8 +133,8 @@ def search_str_format():
     """str.format templates x argument lists against the real formatter, through the checker"""
     from replay.checkcode import check_code
     templates = ["{}", "{} {}", "{0} {0}", "{0} {1}", "{1} {0}", "{x}", "{0.real}", "{0.real} {0.imag}", "{} {x}", "{{}}", "{0} {x} {0}",
-                 "{!r}", "{:>4}", "{0:>{1}}", "{} {} {}", "{2}", "{x} {y}"]
-    arglists = ["", "1", "1, 2", "1, 2, 3", "1, x=2", "x=2", "x=2, y=3"]
+                 "{!r}", "{:>4}", "{0:>{1}}", "{} {} {}", "{2}", "{x} {y}", "{+0}", "{ 0}", "{0}{-1}", "{1_0}", "{0x0}", "{00}"]
+    arglists = ["", "1", "1, 2", "1, 2, 3", "1, x=2", "x=2", "x=2, y=3", "**{'+0': 1}", "1, **{'-1': 2}"]
     lines = ["def f() -> None:"]
     cases = []
     for t in templates:
